@@ -27,3 +27,8 @@ extern "C" {
 #define VX_KNOWN(cond)   ((void)0)
 #endif
 static inline bool nondet_bool() { return nondet_u8() & 1; }
+
+// Storage for an object that is initialised field by field instead of by its constructor.  The union gives the storage the object's
+// REAL type in the IR (typed field accesses, values constant-propagate in the solver); a plain char array would turn every field
+// access into byte-level array operations.
+template <class T> union VxRaw { T obj; char raw[sizeof(T)]; VxRaw() {} ~VxRaw() {} };
